@@ -574,7 +574,7 @@ class Orientation(Misorientation):
         >>> O1.dot(O2)
         array([0.92387953, 0.92387953])
         """
-        symmetry = _get_unique_symmetry_elements(self.symmetry, other.symmetry)
+        symmetry = _get_unique_symmetry_elements(other.symmetry, self.symmetry)
         M = other * ~self
         all_dot_products = Rotation(M).dot_outer(symmetry)
         highest_dot_products = np.max(all_dot_products, axis=-1)
@@ -607,13 +607,13 @@ class Orientation(Misorientation):
         array([[0.92387953, 1.        ],
                [1.        , 0.92387953]])
         """
-        symmetry = _get_unique_symmetry_elements(self.symmetry, other.symmetry)
+        symmetry = _get_unique_symmetry_elements(other.symmetry, self.symmetry)
         M = other.outer(~self)
         all_dot_products = Rotation(M).dot_outer(symmetry)
         highest_dot_products = np.max(all_dot_products, axis=-1)
         # need to return axes order so that self is first
-        order = tuple(range(self.ndim, self.ndim + other.ndim)) + tuple(
-            range(self.ndim)
+        order = tuple(range(other.ndim, other.ndim + self.ndim)) + tuple(
+            range(other.ndim)
         )
         return highest_dot_products.transpose(*order)
 
@@ -848,7 +848,7 @@ class Orientation(Misorientation):
         To read the dot products array `dparr` into memory, do
         `dp = dparr.compute()`.
         """
-        symmetry = _get_unique_symmetry_elements(self.symmetry, other.symmetry)
+        symmetry = _get_unique_symmetry_elements(other.symmetry, self.symmetry)
         M = other._outer_dask(~self, chunk_size=chunk_size)
 
         # Summation subscripts
@@ -860,5 +860,8 @@ class Orientation(Misorientation):
 
         all_dot_products = da.einsum(sum_over, M, symmetry.data)
         highest_dot_product = da.max(abs(all_dot_products), axis=-1)
+        order = tuple(range(other.ndim, other.ndim + self.ndim)) + tuple(
+            range(other.ndim)
+        )
 
-        return highest_dot_product
+        return highest_dot_product.transpose(*order)
